@@ -14,7 +14,12 @@ import z3
 _counter = itertools.count()
 
 
+_STABLE_PREFIX = [None]
+
+
 def fresh_name(base):
+    if _STABLE_PREFIX[0] is not None and base.startswith(_STABLE_PREFIX[0]):
+        return base                  # values looked up in a symbolic dict are functions of the key: same names each time
     return "%s!%d" % (base, next(_counter))
 
 
@@ -75,6 +80,15 @@ class TTuple(T):
 
     def __repr__(self):
         return "tuple%r" % (self.items,)
+
+
+class TDict(T):
+    """read-only dict with string keys and values of type vt (symbolic content)"""
+    def __init__(self, vt):
+        self.vt = vt
+
+    def __repr__(self):
+        return "dict[str, %r]" % (self.vt,)
 
 
 class TOpt(T):
@@ -622,6 +636,31 @@ def fresh(ty, name, idx=(), assume=None):
         return wrap_of(ty)(t)
     if isinstance(ty, TNone):
         return VNone
+    if isinstance(ty, TDict):
+        if idx:
+            raise Unsupported("dict inside a symbolic container")
+        base = fresh_name(name)
+        hasf = z3.Function(base + "_has", StrS, BoolS)
+
+        def val(k, _base=base, _vt=ty.vt):
+            old = _STABLE_PREFIX[0]
+            _STABLE_PREFIX[0] = _base
+            try:
+                return fresh(_vt, _base + "_val", idx=(k,), assume=None)
+            finally:
+                _STABLE_PREFIX[0] = old
+        if assume is not None:
+            # side conditions of the values (list lengths >= 0), for every key
+            kq = z3.String(fresh_name("dk"))
+            tmp = []
+            old = _STABLE_PREFIX[0]
+            _STABLE_PREFIX[0] = base
+            try:
+                fresh(ty.vt, base + "_val", idx=(kq,), assume=tmp)
+            finally:
+                _STABLE_PREFIX[0] = old
+            assume.extend(tmp)
+        return VDict(STR, ty.vt, lambda k: VBool(hasf(k)), val)
     if isinstance(ty, TOpt):
         isn = fresh(BOOL, name + "_isnone", idx).t
         return VOpt(isn, fresh(ty.inner, name + "_val", idx, assume))
